@@ -83,6 +83,8 @@ def run_case(case):
         sig = {"check": "mle", "family": fam, "clause": clause}
         if case.get("fix_param"):
             sig["one_parameter_fixed"] = True
+        if case.get("fix_offset"):
+            sig["fixed_away_from_generating_value"] = True
         if fam == "WeibullDistribution":
             sig["gamma_free"] = gamma_free
             sig["beta_true_below_1"] = bool(th["beta"] < 1)
@@ -99,6 +101,10 @@ def run_case(case):
         fixed = {"loc": 0.0}
     if case.get("fix_param"):   # one further parameter fixed at its generating value (likelihood clauses still apply)
         fixed = dict(fixed, **{case["fix_param"]: th[case["fix_param"]]})
+    off = bool(case.get("fix_offset"))
+    if off:                     # ... or fixed AWAY from its generating value (the free ones must adapt to it)
+        v0 = th[case["fix_param"]]
+        fixed[case["fix_param"]] = v0 * 1.25 + 0.15 if case["fix_offset"] == "up" else v0 * 0.8 - (0.1 if TRANS[fam][case["fix_param"]] in ("logscale", "none") or (fam == "NormalDistribution" and case["fix_param"] == "mu") else 0.0)
 
     def start_for(c):
         if startk == "default":
@@ -140,6 +146,31 @@ def run_case(case):
         ll_start = loglik(fam, sp, dc) if fam != "LogNormalNormFitDistribution" or st else -np.inf
         if np.isfinite(ll_start) and not ll_fit >= ll_start - 1e-9 * abs(ll_start) - 1e-9:
             bad("ll_below_start", {"ll_fit": ll_fit, "ll_start": ll_start, "params": p, "start": sp, "scale_factor": c})
+        if off:
+            # polished start: Nelder-Mead on the free parameters from the library's estimate (fixed ones in force); the
+            # property's start-value clause is then applied to a fit started there ("user start values")
+            if c == 1.0 and startk == "default":
+                from scipy.optimize import minimize
+                free = [k for k in p if k not in fx]
+                if free:
+                    def nll(v):
+                        q = dict(p, **dict(zip(free, v)))
+                        if not admissible(fam, q):
+                            return 1e300
+                        ll = loglik(fam, q, dc)
+                        return -ll if np.isfinite(ll) else 1e300
+                    r = minimize(nll, [p[k] for k in free], method="Nelder-Mead", options={"xatol": 1e-10, "fatol": 1e-12, "maxiter": 3000})
+                    pol = dict(zip(free, map(float, r.x)))
+                    ll_pol = -float(r.fun)
+                    try:
+                        p2 = fit(fam, dc, pol, fx)
+                        nfit += 1
+                        ll2 = loglik(fam, p2, dc)
+                        if not ll2 >= ll_pol - 1e-9 * abs(ll_pol) - 1e-9:
+                            bad("ll_below_start", {"ll_fit": ll2, "ll_start": ll_pol, "params": p2, "start": dict(pol, **fx), "start_kind": "polished"})
+                    except Exception as e:
+                        bad("exception", {"type": type(e).__name__, "msg": str(e)[:160], "start_kind": "polished"})
+            continue
         ll_gen = loglik(fam, scale_params(fam, th, c), dc)
         if np.isfinite(ll_gen) and not ll_fit >= ll_gen - 1e-6 * abs(ll_gen) - 1e-6:
             bad("ll_vs_generating", {"ll_fit": ll_fit, "ll_generating": ll_gen, "params": p, "scale_factor": c, "deficit": ll_gen - ll_fit},
@@ -164,7 +195,8 @@ def main(ctx):
     ctx.rule = ("complete product: family (9) x parameter grid of regular members x n in {100,1000,5000} x data seed x start {library "
                 "default, admissible user start} x (Weibull: location free / fixed) ; each case also fits the data multiplied by c in "
                 "{0.5, 3} (kept when the scaled data stay within metocean magnitudes). evaluations = fits. The data sets are a fixed "
-                "finite family (their seeds do not move with VERIF_SEED).")
+                "finite family (their seeds do not move with VERIF_SEED). Additionally one parameter fixed at / above / below its generating value; "
+                "for the off-value cases a second fit is started from a Nelder-Mead polished point (a 'user start value').")
     ctx.assumptions = ["log-likelihood evaluated with the distribution's own pdf (anchored by C05)",
                        "equivariance within optimiser tolerance: parameters within 1e-3 relative OR equal attained log-likelihood "
                        "(within 0.05) after mapping back - likelihood ridges are flat (Nelder-Mead stops on simplex size)",
@@ -188,6 +220,10 @@ def main(ctx):
                                 continue
                             cases.append({"family": fam, "theta": th, "n": n, "seed": seed, "start": st, "fix_gamma": fg,
                                           "scales": [0.5, 3.0], "fix_param": pn})
+                            if n <= 1000:
+                                for od in ("up", "down"):
+                                    cases.append({"family": fam, "theta": th, "n": n, "seed": seed, "start": st, "fix_gamma": fg,
+                                                  "scales": [], "fix_param": pn, "fix_offset": od})
     for c in cases:
         ctx.axis("family", zoo.SHORT[c["family"]])
     cases.sort(key=lambda c: -c["n"])
